@@ -1,6 +1,7 @@
 package c12
 
 import (
+	"vh/deferchk"
 	"bufio"
 	"bytes"
 	"context"
@@ -490,6 +491,17 @@ func gen(t *rapid.T) Case {
 		c.CutAt = rapid.IntRange(0, 400).Draw(t, "cut")
 	}
 	return c
+}
+
+// TestGeneratedStreams: not a scripted schema but the generated server - @defer queries delivered
+// through the multipart/mixed and SSE transports, parsed off the wire and checked by the shared @defer
+// oracle (every payload exactly once and intact, in an order a client can apply, hasNext, termination).
+func TestGeneratedStreams(t *testing.T) {
+	vfrun.Run(t, vfrun.Prop[deferchk.Case]{Property: "C12", Name: "TestGeneratedStreams", Gen: func(t *rapid.T) deferchk.Case {
+		c := deferchk.Gen(t)
+		c.Via = rapid.SampledFrom([]string{"mixed", "mixed", "sse"}).Draw(t, "wire")
+		return c
+	}, Check: deferchk.Check}, vfrun.N(1200, 40000))
 }
 
 func TestStreams(t *testing.T) {
